@@ -184,6 +184,11 @@ _TYPICAL = {
     'PrintableString': 'abcxyzABC019 ',
     'IA5String': 'abcxyz~ !',
     'VisibleString': 'abcxyz~ !',
+    # kinds whose repertoire goes beyond ASCII: length is counted in characters,
+    # not in octets of any encoding
+    'BMPString': 'a\u00e9\u20acbxyz~ !',
+    'UniversalString': 'a\u00e9\u20ac\U0001f600bxyz~ !',
+    'UTF8String': 'a\u00e9\u20ac\U0001f600bxyz~ !',
 }
 
 
